@@ -426,6 +426,47 @@ func c05(c *core.Ctx) {
 				c.Ok(key, pn.Pos(), "%s", why)
 			})
 		}
+		// implicit panics of sync/atomic.Value: Store, Swap and CompareAndSwap panic when the value offered is nil or
+		// of another concrete type than the one stored first. Every value the library offers to one atomic.Value
+		// must therefore have one statically known concrete type (an `error` variable holds many)
+		nAV := 0
+		for _, fn := range fns {
+			core.Instrs(fn, func(in ssa.Instruction) {
+				cc := core.CallOf(in)
+				if cc == nil {
+					return
+				}
+				ci := core.InfoOf(cc)
+				if !(ci.Pkg == "sync/atomic" && ci.Recv == "Value" && (ci.Name == "Store" || ci.Name == "Swap" || ci.Name == "CompareAndSwap")) {
+					return
+				}
+				nAV++
+				args := core.Args(cc)
+				newV := args[len(args)-1]
+				key := core.FuncName(fn) + ":atomic.Value." + ci.Name + ":one-concrete-type"
+				kinds := map[string]bool{}
+				dyn := false
+				for _, o := range core.Origins(newV) {
+					if mi, ok := o.(*ssa.MakeInterface); ok {
+						if _, isIface := mi.X.Type().Underlying().(*types.Interface); isIface {
+							dyn = true
+						} else {
+							kinds[core.TypeStr(mi.X.Type())] = true
+						}
+						continue
+					}
+					dyn = true
+				}
+				if dyn || len(kinds) != 1 {
+					c.Fail(key, in.Pos(), "the value offered to the atomic.Value has no single static concrete type (%v%s): sync/atomic panics on a nil value and on a value whose concrete type differs from the first one stored — two failure paths that record different error types crash the caller", keysOf(kinds), map[bool]string{true: ", or a dynamic one", false: ""}[dyn])
+				} else {
+					c.Ok(key, in.Pos(), "always a %v", keysOf(kinds))
+				}
+			})
+		}
+		if nAV == 0 {
+			c.OkTrivial("library:atomic.Value-writes", token.NoPos, "the library writes no sync/atomic.Value")
+		}
 		c.EndRule()
 	}
 
@@ -674,6 +715,9 @@ func c05(c *core.Ctx) {
 	// a header accessor that stays in its receiving state takes (and blocks for) another frame on every call: on a
 	// ping-pong stream the second Header() blocks for ever holding the receive lock (C20/R6)
 	c.Borrow("C20", map[string]string{"R6": "R9"}, c20)
+	// a cancel of the call's own context (the stream's cancel function: the finalizer's, the receive side's when it
+	// fails the call itself) ends the HTTP exchange only if the request is bound to that very context (C04/R3)
+	c.Borrow("C04", map[string]string{"R3": "R13"}, c04)
 	// a reply frame that is not flushed is a reply the client waits for until the handler returns — and a handler
 	// that waits for the client's answer to it never returns (C01/R12)
 	c.Borrow("C01", map[string]string{"R12": "R12"}, c01)
